@@ -44,6 +44,10 @@ ROWS = [
     ("chr2", "c", "exon", "7", "9", "0.5", "+", "0", "ID=e6", []),
     ("chrX", "B", "CDS", "50", "52", "9", "-", "1", "ID=c2", []),
     ("chr1", "a", "exon", "2", "3", "10", "+", ".", "ID=e7;Name=a", ["b"]),
+    # feature types that differ only by case, by an SQL wildcard position, or contain a quote
+    ("chr2", "a", "cds", "8", "9", "1", "+", "0", "ID=c3", []),
+    ("chr2", "a", "five-prime-UTR", "3", "4", ".", "+", ".", "ID=u1", []),
+    ("chr2", "B", "5'UTR", "5", "6", ".", "-", ".", "ID=u2", []),
 ]
 
 
@@ -67,7 +71,8 @@ def order_options():
 
 
 LONG_FT = ["t%03d" % i for i in range(300)] + ["exon"] + ["u%03d" % i for i in range(320)] + ["gene"] + ["v%03d" % i for i in range(40)]
-FTS = [None, "exon", ("exon", "gene"), ["CDS", "mRNA", "exon"], "nosuchtype", LONG_FT]
+FTS = [None, "exon", ("exon", "gene"), ["CDS", "mRNA", "exon"], "nosuchtype", LONG_FT,
+       "CDS", "five_prime_UTR", "5'UTR", ["5'UTR", "exon"], ("cds", "%"), {"gene", "5'UTR"}]
 STRANDS = [None, "+", "-", "."]
 
 
@@ -121,7 +126,7 @@ def body(ch, ctx):
     which, method, fi, si = ctx.shard
     db, model = get_db(ctx, which)
     if method == "counts":
-        what = ch.choose("what", ["count:%s" % t for t in (None, "gene", "exon", "CDS", "mRNA", "nosuchtype")] + ["featuretypes", "seqids", "fullscan", "interleaved"])
+        what = ch.choose("what", ["count:%s" % t for t in (None, "gene", "exon", "CDS", "cds", "five_prime_UTR", "5'UTR", "mRNA", "nosuchtype")] + ["featuretypes", "seqids", "fullscan", "interleaved"])
         ctx.nontrivial()
         ctx.outcome((which, what))
         ctx.sample(lambda: dict(db=which, check=what))
